@@ -505,17 +505,12 @@ example : let c := runOps [.add 1, .add 2, .bar 105, .trial 1 .o, .trial 2 .x, .
     c.phase = .won ∧ (step c (.trial 2 .x)).2 = .rule := by decide +kernel
 
 /-- **Whoever comes back after being out comes back for a jump-off only**: if an athlete is out before a call and in
-    after it (re-instated by the ranking), the attempt limit is then 1 and the competition is not in its regular
-    phases — nobody who went out with three failures or retired gets back into the competition proper. -/
+    after it (re-instated by the ranking), the attempt limit is then 1 and a jump-off is on — nobody who went out with
+    three failures or retired gets back into the competition proper. -/
 theorem C02_back_only_with_one_attempt (c : Comp) (hr : Reachable c) (op : Op) (j j' : Jumper) (hj : j ∈ c.jumpers)
     (hj' : j' ∈ (step c op).1.jumpers) (hb : j'.bib = j.bib) (he : j.eliminated = true) (he' : j'.eliminated = false) :
-    j'.roundLim = 1 ∧ (step c op).1.phase ≠ .scheduled ∧ (step c op).1.phase ≠ .started ∧ (step c op).1.phase ≠ .won := by
-  have h1 := step_back c op (wf_reachable c hr) j j' hj hj' hb he he'
-  have hl := limInv_reachable _ (Reachable.step c op hr)
-  refine ⟨h1, fun hq => ?_, fun hq => ?_, fun hq => ?_⟩
-  · have := hl.regular (Or.inl hq) j' hj'; omega
-  · have := hl.regular (Or.inr (Or.inl hq)) j' hj'; omega
-  · have := hl.regular (Or.inr (Or.inr hq)) j' hj'; omega
+    j'.roundLim = 1 ∧ (step c op).1.phase = .jumpoff :=
+  ⟨step_back c op (wf_reachable c hr) j j' hj hj' hb he he', step_back_phase c op (wf_reachable c hr) j j' hj hj' hb he he'⟩
 
 /-- non-vacuity: the ninth failure of a two-way tie brings both athletes back, for a jump-off -/
 example : let c := runOps [.add 1, .add 2, .bar 105, .trial 1 .x, .trial 1 .x, .trial 1 .x, .trial 2 .x, .trial 2 .x]
